@@ -60,7 +60,7 @@ def main(argv=None):
     lock = harness.load_lock(pid)
 
     n_obl = n_dis = 0
-    violations, undecided, crashes, known_hits = [], [], [], []
+    violations, undecided, crashes, known_hits, unknowns = [], [], [], [], []
     backends = {}
     solver_secs = 0.0
     samples = []
@@ -82,11 +82,15 @@ def main(argv=None):
             solver_secs += o["secs"]
             e = names.setdefault(o["name"], dict(paths=0, proved=0, failed=0, unknown=0))
             e["paths"] += 1
-            e[o["status"]] += 1
+            e["failed" if o["status"] == "failed-weak" else o["status"]] += 1
             if o["status"] == "proved":
                 n_dis += 1
             elif o["status"] == "unknown":
-                undecided.append((r["unit"], f"obligation {o['name']} [path {o['path']}]: solver unknown"))
+                k = harness.match_known(known, pid, r["unit"], o["name"])
+                if k is not None:
+                    known_hits.append((k, r["unit"], o))
+                else:
+                    unknowns.append((r["unit"], o))
             else:
                 k = harness.match_known(known, pid, r["unit"], o["name"])
                 if k is not None:
@@ -121,7 +125,7 @@ def main(argv=None):
         if key not in n_known_lines:
             n_known_lines.add(key)
             print(f"KNOWN-FINDING: property={pid} {k['obligation']} ({uname}): {k['what']}")
-    for (uname, o) in violations:
+    for (uname, o) in violations + unknowns:
         key = (uname, o["name"])
         if key in seen:
             continue
@@ -142,6 +146,9 @@ def main(argv=None):
         json.dump(rep, open(rp, "w"), indent=1, default=str)
         if confirmed:
             vio_lines.append(f"VIOLATION property={pid} replay={rp}")
+        elif o["status"] in ("unknown", "failed-weak"):
+            # no verdict from the solver on the full VC and no native failing input: undecided, never a violation
+            undecided.append((uname, f"obligation {o['name']} [path {o['path']}]: solver {o['status']}, replay found no failing input"))
         elif in_lock:
             vio_lines.append(f"VIOLATION property={pid} replay={rp} no-failing-input-found")
         else:
@@ -178,7 +185,7 @@ def main(argv=None):
     trusted = list(getattr(mod, "TRUSTED", []))
     assumptions = harness.GLOBAL_ASSUMPTIONS + list(getattr(mod, "ASSUMPTIONS", []))
     cov = dict(
-        obligations=n_obl, discharged=n_dis,
+        obligations=n_obl - len(known_hits), discharged=n_dis, obligations_failing_as_known_findings=len(known_hits),
         checker_cmd=f"cd /verif && ./check {pid} --tier {tier}",
         trusted_base=trusted + ["pyvc engine", "z3 5.1", "cvc5 1.4 (second opinion)", "CPython 3.12"],
         functions_under_contract=sorted({r.get("func") for r in results if r.get("func")}),
